@@ -951,6 +951,14 @@ def gen_weight_case(r, dyadic=False):
         case["weights"] = [-x for x in case["weights"]]
     case["weights_edge"] = edge if (edge != "zeros" or K >= 2) else ""
     case["mean"] = (r.randint(1, 4096) / 4.0) if dyadic else float(10 ** g.uniform(-2, 6))
+    # 30 %: the SAME probe model was prepared before, for data of another dose (a model reused for a second
+    # reconstruction, or set_initial_probe called again): the probe must carry the mean intensity of the LAST
+    # preparation
+    # (not combined with exact-zero requested weights: a zero-weight mode has zero intensity after the first
+    # preparation and the second one computes sqrt(0 / 0) = nan for it - recorded as an observation in
+    # C10.audit.md, the property's "requested weights" are taken to be positive for a model that is re-prepared)
+    if r.random() < 0.3 and case.get("weights_edge") != "zeros":
+        case["earlier_means"] = [float(case["mean"] * f) for f in r.sample([0.05, 0.5, 4.0, 20.0], r.randint(1, 2))]
     if route == "params":
         case["roi"] = r.choice([[8, 8], [8, 10], [12, 8]])
         case["defocus"] = r.choice([0.0, 50.0, 120.0])
@@ -985,10 +993,12 @@ def weights_out(case):
     if case["route"] == "params":
         pm = ProbePixelated.from_params(probe_params={"energy": 80e3, "defocus": case["defocus"], "semiangle_cutoff": 20.0},
                                         num_probes=K, initial_probe_weights=case["weights"], rng=case["seed"])
-        pm.set_initial_probe((h, w), np.array([1.0 / (h * 0.5), 1.0 / (w * 0.5)]), case["mean"])
+        for m in list(case.get("earlier_means", [])) + [case["mean"]]:
+            pm.set_initial_probe((h, w), np.array([1.0 / (h * 0.5), 1.0 / (w * 0.5)]), m)
     else:
         pm = ProbePixelated.from_array(case_probe(case).copy(), initial_probe_weights=case["weights"], rng=case["seed"])
-        pm.set_initial_probe((h, w), np.array([0.1, 0.1]), case["mean"])
+        for m in list(case.get("earlier_means", [])) + [case["mean"]]:
+            pm.set_initial_probe((h, w), np.array([0.1, 0.1]), m)
     req = pm.initial_probe_weights.detach().cpu().numpy().astype(np.float64) if case["weights"] is None \
         else np.array(case["weights"], dtype=np.float64)
     return pm.initial_probe.detach().cpu().numpy().copy(), req
@@ -1469,6 +1479,8 @@ def check_weights(ctx: Ctx):
             ctx.dist("weights/edge=%s" % case["weights_edge"])
         if case.get("disparate_modes"):
             ctx.dist("weights/mode-strengths=disparate(1e-3..1e-6)")
+        if case.get("earlier_means"):
+            ctx.dist("weights/model-prepared-before=%d-times" % len(case["earlier_means"]))
         ctx.count(("w", json.dumps(case, sort_keys=True)), nontrivial=case["K"] > 1)
         for key, what in bad:
             nbad += 1
